@@ -68,7 +68,8 @@ RULE = ('case = a stack (list, bottom first) of value specs: null, int (decimal 
         'string + nested refs; slices with cb bits / cr refs already loaded), tuple (nested <= 4, lengths 0,1,2,3+), '
         'continuation (all ten kinds, control data nargs/stack/save/cp each absent, zero or boundary). depth 0..40 '
         'quick, <= 300 thorough; ints at +-2^63 and +-2^256 +-2. enumerated sub-check: every boundary int, tuple '
-        'length 0..8 x nesting 1..4, every continuation kind x control-data variant, depth ladder. '
+        'length 0..8 x nesting 1..4, every continuation kind x control-data variant, depth ladder, one stack holding '
+        'all boundary ints. '
         'non-trivial = contains a tuple of length >= 2, a continuation, or an int within 1 of a form boundary '
         '(+-2^63, range ends); distinct = distinct case')
 ASSUMPTIONS = ['harness/ref/refvmstack.py: independent VmStack/VmCont/HashmapE decoder over (bits, refs) trees, '
@@ -742,8 +743,7 @@ def _fit(v, maxrefs, maxbits=1000):
         return {'t': 'tuple', 'items': [_fit(x, 4) for x in v['items']]}
     if t != 'cont':
         return v
-    c = _fit_cont(v, maxrefs - 0, maxbits - 8)
-    return c
+    return _fit_cont(v, maxrefs, maxbits - 8)
 
 
 def _fit_cont(c, maxrefs, maxbits):
@@ -1067,7 +1067,7 @@ SUBCHECKS = [
         note='boundary ints, tuple length x nesting grid, slice consumption grid, every continuation kind x '
              'control-data variant, depth ladder'),
     Sub('random-stacks', check, strategy=strat_stacks, classify=classify, nontrivial=nontrivial,
-        n=(3000, 40000), shards=(16, 48)),
+        n=(3000, 100000), shards=(16, 48)),
     Sub('random-continuations', check, strategy=strat_conts, classify=classify, nontrivial=nontrivial,
-        n=(1200, 16000), shards=(16, 32)),
+        n=(1200, 40000), shards=(16, 32)),
 ]
